@@ -384,7 +384,8 @@ class AliasPrinter(NodeVisitor[str]):
         return f"{o.left.accept(self)} {o.op} {o.right.accept(self)}"
 
     def visit_unary_expr(self, o: UnaryExpr, /) -> str:
-        return f"{o.op}{o.expr.accept(self)}"
+        sep = " " if o.op == "not" else ""
+        return f"{o.op}{sep}{o.expr.accept(self)}"
 
     def visit_slice_expr(self, o: SliceExpr, /) -> str:
         blocks = [
